@@ -586,6 +586,19 @@ func (sp *subProcess) run(ctx context.Context, out tracing.ITracer, sender traci
 					traces := sp.subTracer.Subscribe()
 					defer sp.subTracer.Unsubscribe(traces)
 
+					// every activation has its own completion monitor and fresh inner start events,
+					// otherwise a second activation (a sub-process inside a loop) skips the content
+					// and never returns
+					for i := range *sp.element.StartEvents() {
+						if node, found := sp.flowNodeMapping.ResolveElementToFlowNode(&(*sp.element.StartEvents())[i]); found {
+							if start, ok := node.(*startEvent); ok {
+								start.activated.Store(false)
+							}
+						}
+					}
+					monitoring := sp.subTracer.RegisterSender()
+					go sp.ceaseFlowMonitor(sp.subTracer)(ctx, monitoring)
+
 					if err := sp.startAll(ctx); err != nil {
 						subProcessId := ""
 						if pid, present := sp.element.Id(); present {
@@ -635,11 +648,7 @@ func (sp *subProcess) run(ctx context.Context, out tracing.ITracer, sender traci
 
 func (sp *subProcess) NextAction(ctx context.Context, flow Flow) chan IAction {
 	if sp.active.CompareAndSwap(0, 1) {
-		// flow nodes
-		// StartAll cease flow monitor
-		sender := sp.subTracer.RegisterSender()
 		tracer := sp.wr.tracer
-		go sp.ceaseFlowMonitor(sp.subTracer)(ctx, sender)
 		runner := tracer.RegisterSender()
 		go sp.run(ctx, tracer, runner)
 	}
